@@ -1075,7 +1075,7 @@ pub fn check(ctx: &Ctx) {
     for n in [0usize, 1, 6, 7, 191, 192, 193, 255, 256, 8383, 8384, 8385, 65535, 65536, 70_000] {
         hc.push(ShapeCase { family: 3, n });
     }
-    for n in 0..if quick { 12 } else if deep { 240 } else { 60 } {
+    for n in 0..if quick { 12 } else if deep { 1000 } else { 60 } {
         hc.push(ShapeCase { family: 5, n });
     }
     for n in 0..120 {
